@@ -22,7 +22,7 @@ for d in sorted(glob.glob(os.path.join(ROOT, "seeded", "C??_m?"))):
     h = "caught by the first run" if not hist else ("MISSED at first -> strengthened" if "NOT reported" in hist[0] else ("no-failing-input at first -> concrete after strengthening" if "no-failing-input-found" in hist[0] else "operation added, then caught"))
     others = ""
     if tag in matrix:
-        others = " ".join(p for p, v in sorted(matrix[tag].items()) if v != "-" and p != prop)
+        others = " ".join((p if v == "R" else f"({p})") for p, v in sorted(matrix[tag].items()) if v != "-" and p != prop)
     what = (m.get("name") or "")[:60]
     files = ",".join(os.path.basename(f) for f in m.get("files", []))[:40]
     rows.append(f"| {tag} | {what} ({files}) | {kind} {first} | {h} | {others} |")
@@ -30,9 +30,15 @@ txt = ("Forty changes were produced by fresh sub-agents that saw only the proper
        "`seeded/<id>/patch.diff`, `demo.rs`, `meta.json`). Every one was confirmed by me in the agent's worktree: the demo passes without "
        "the patch and fails with it, and the unedited test suite passes with it (C02_m1 and C06_m1 fail one randomly-seeded test in some "
        "runs; the two C18 changes are invisible to the default build and need the portable scanner). Each was then applied to a copy of `/repo` "
-       "(`tools/mutcheck.sh`) and the checks were run. Result: all forty are now reported by the check of their own property, thirty-eight "
-       "with a concrete shrunk replay... see the table; what was missed at first and how the check was strengthened is in each "
-       "`meta.json` (`check_history`). Column `also` lists the other properties' checks that report the same change (cross matrix).\n\n"
+       "(`tools/mutcheck.sh`) and the checks were run. Result of the first runs: 21 of 40 reported with a concrete replay by the check of "
+       "their own property, 6 reported only as `no-failing-input-found` (proof or tie broken, no input found), 11 NOT reported, 2 (C14) "
+       "could not have been reported because the harness lacked the operation. Every miss was traced to a gap in the *generators / "
+       "operations / relevance predicates* (never to a proof) and closed -- collision-run, sparse, removal, fault-matrix, get_many_mut and "
+       "inconsistent-hasher scripts, owning iterators, replace_entry_with, the layout probe, and a parser bug of my own that had silenced "
+       "the capacity oracles; see each `meta.json` (`check_history`). Final state (`seeded/MATRIX.json`, every check against every seed, "
+       "quick tier): all 40 are reported by the check of their own property with a concrete, shrunk replay. Column `also` lists the other "
+       "properties' checks that report the same change (with a replay, or -- in parentheses -- as no-failing-input-found because the "
+       "generated definitions or the bit-exact tie they share broke).\n\n"
        "| seed | change | own check reports | history | also reported by |\n|---|---|---|---|---|\n" + "\n".join(rows) + "\n")
 p = os.path.join(ROOT, "DESIGN.md")
 s = open(p).read()
